@@ -19,7 +19,7 @@ type Op struct {
 
 var OpKinds = []string{"remove-member", "swap-members", "rename-field", "add-field", "remove-message", "add-message",
 	"toggle-required", "change-field-type", "change-type-mapping", "add-enum-values", "add-group", "add-component",
-	"remove-component", "duplicate-field-number", "duplicate-msgtype", "reorder-messages", "add-nested-groups", "move-framing-field", "same-group-in-components", "change-version", "add-time-field"}
+	"remove-component", "duplicate-field-number", "duplicate-msgtype", "reorder-messages", "add-nested-groups", "move-framing-field", "same-group-in-components", "change-version", "add-time-field", "type-named-like-enum-field", "enum-of-unmapped-type"}
 
 // names the generator or the library's interfaces rely on
 var protectedFields = map[string]bool{
@@ -344,6 +344,44 @@ func Apply(base *schema.Schema, baseTM *schema.TypeMap, ops []Op) (s *schema.Sch
 			pos := op.C % (len(*h.members) + 1)
 			*h.members = append((*h.members)[:pos:pos], append([]*schema.Member{{Kind: "field", Name: fname, Required: op.C%2 == 0}}, (*h.members)[pos:]...)...)
 			note("map FIX type %s to Time and add field %s of that type to %s at %d", tname, fname, h.label, pos)
+		case "type-named-like-enum-field", "enum-of-unmapped-type":
+			// dictionaries in the FIX-repository spelling name data types like fields (field Currency of
+			// type Currency), and dictionaries newer than the mapping type their enumerations with names
+			// the mapping has never heard of: an enumeration is a String whatever its type says, every
+			// other field follows the mapping
+			var enums []*schema.FieldDef
+			for _, f := range s.Fields {
+				if cast, _ := tm.Cast(f.Type); len(f.Values) > 0 && cast != "Bool" && !protectedFields[f.Name] && !isGroupName(s, f.Name) {
+					enums = append(enums, f)
+				}
+			}
+			if len(enums) == 0 {
+				skip(op, "no enumerated field")
+				continue
+			}
+			e := enums[op.A%len(enums)]
+			if op.Kind == "enum-of-unmapped-type" {
+				fresh++
+				e.Type = fmt.Sprintf("ZZUNMAPPED%d", fresh)
+				note("enumerated field %s gets the data type %s, which the mapping does not list", e.Name, e.Type)
+				break
+			}
+			if _, taken := tm.Cast(e.Name); taken {
+				skip(op, "a data type named "+e.Name+" exists already")
+				continue
+			}
+			cast := []string{"String", "Int", "Float", "String"}[op.B%4]
+			tm.Entries = append(tm.Entries, schema.TypeEntry{Name: e.Name, Cast: cast})
+			if op.C%2 == 0 {
+				e.Type = e.Name
+			}
+			fresh++
+			fname := fmt.Sprintf("ZzNamesake%d", fresh)
+			s.Fields = append(s.Fields, &schema.FieldDef{Number: strconv.Itoa(maxFieldNumber(s) + 1), Name: fname, Type: e.Name})
+			h := hs[op.B%len(hs)]
+			pos := op.C % (len(*h.members) + 1)
+			*h.members = append((*h.members)[:pos:pos], append([]*schema.Member{{Kind: "field", Name: fname, Required: op.C%3 == 0}}, (*h.members)[pos:]...)...)
+			note("data type %s (-> %s), named like the enumerated field %s; plain field %s of that type added to %s at %d", e.Name, cast, e.Name, fname, h.label, pos)
 		case "change-version":
 			// another protocol version: major and minor differ from each other
 			v := [][2]string{{"4", "2"}, {"5", "0"}, {"4", "3"}, {"4", "0"}, {"1", "1"}, {"10", "2"}}[op.A%6]
@@ -461,7 +499,31 @@ func Apply(base *schema.Schema, baseTM *schema.TypeMap, ops []Op) (s *schema.Sch
 			note("give message %s the msgtype %s of message %s (must be rejected)", b.Name, a.MsgType, a.Name)
 		}
 	}
+	if mustReject && !hasDuplicate(s) {
+		// a later mutation removed one of the two definitions that clashed
+		mustReject = false
+		log = append(log, "(the planted duplicate is gone again)")
+	}
 	return
+}
+
+// hasDuplicate: two field definitions with one number, or two messages with one MsgType.
+func hasDuplicate(s *schema.Schema) bool {
+	nums := map[string]bool{}
+	for _, f := range s.Fields {
+		if nums[f.Number] {
+			return true
+		}
+		nums[f.Number] = true
+	}
+	types := map[string]bool{}
+	for _, m := range s.Messages {
+		if types[m.MsgType] {
+			return true
+		}
+		types[m.MsgType] = true
+	}
+	return false
 }
 
 func cloneMember(m *schema.Member) *schema.Member {
